@@ -505,22 +505,37 @@ func ruleRecoverability(c *Ctx, r *Report) {
 	const rule3 = "partial-ack-keeps-message"
 	if fn := c.need(r, rule3, "(*"+pkgHS+".fsm13).applyACKProgress"); fn != nil {
 		r.Sites += len(fn.Blocks)
-		loops := naturalLoops(fn)
-		var inner *natLoop
-		for _, l := range loops {
-			if inner == nil || len(l.blocks) < len(inner.blocks) {
-				inner = l
+		top := fn
+		collect := func(g *ssa.Function) (*natLoop, []ssa.Instruction) {
+			var inner *natLoop
+			for _, l := range naturalLoops(g) {
+				if inner == nil || len(l.blocks) < len(inner.blocks) {
+					inner = l
+				}
 			}
+			var keeps []ssa.Instruction
+			for _, ci := range callsIn(g, nameIs("builtin:append")) {
+				call := ci.(*ssa.Call)
+				if inner != nil && inner.blocks[call.Block()] && typeShort(call.Type()) == "[]*internal/flight.Packet" {
+					keeps = append(keeps, call)
+				}
+			}
+			return inner, keeps
 		}
-		var keeps []ssa.Instruction
-		for _, ci := range callsIn(fn, nameIs("builtin:append")) {
-			call := ci.(*ssa.Call)
-			if inner != nil && inner.blocks[call.Block()] && typeShort(call.Type()) == "[]*internal/flight.Packet" {
-				keeps = append(keeps, call)
+		inner, keeps := collect(fn)
+		if len(keeps) == 0 {
+			// the filtering may sit in a helper of the package that is called per acknowledged message
+			for _, ci := range callsIn(top, func(string) bool { return true }) {
+				if g := ci.Common().StaticCallee(); g != nil && g.Pkg == top.Pkg && len(g.Blocks) > 0 {
+					if in2, k2 := collect(g); len(k2) > 0 {
+						fn, inner, keeps = g, in2, k2
+						r.Sites += len(g.Blocks)
+					}
+				}
 			}
 		}
 		if inner == nil || len(keeps) == 0 {
-			r.Bad(rule3, short(fn), c.pos(fn.Pos()), "no loop that re-collects the packets still to be retransmitted")
+			r.Bad(rule3, short(top), c.pos(top.Pos()), "no loop that re-collects the packets still to be retransmitted")
 		} else {
 			isKeep := map[ssa.Instruction]bool{}
 			for _, k := range keeps {
@@ -561,7 +576,7 @@ func ruleRecoverability(c *Ctx, r *Report) {
 				first = false
 				w.FromEdge(inner.header, body)
 			}
-			r.Check(body != nil && !dropped, rule3, short(fn), c.pos(fn.Pos()), "a message that is not completely acknowledged is kept for retransmission on every path", "a partially acknowledged message can be dropped from the retransmission list: its missing fragments are never sent again")
+			r.Check(body != nil && !dropped, rule3, short(top), c.pos(fn.Pos()), "a message that is not completely acknowledged is kept for retransmission on every path", "a partially acknowledged message can be dropped from the retransmission list: its missing fragments are never sent again")
 		}
 	}
 }
@@ -1255,10 +1270,55 @@ func ruleDoublingOnlyOnTimeout(c *Ctx, r *Report) {
 func ruleAwaitLoopsRetransmit(c *Ctx, r *Report) {
 	const rule = "await-loops-retransmit"
 	n := 0
-	for _, s := range c.CallsTo(nameHasSuffix("dtls.Conn).readAndBufferNoFSM")) {
+	// the readers used while no state machine runs: functions of the package that call the datagram
+	// reader (directly or through one of them) without signalling a state machine
+	prelim := map[*ssa.Function]bool{}
+	signals := func(f *ssa.Function) bool {
+		for _, b := range f.Blocks {
+			for _, in := range b.Instrs {
+				switch x := in.(type) {
+				case *ssa.Send:
+					return true
+				case *ssa.Select:
+					for _, st := range x.States {
+						if st.Dir == types.SendOnly {
+							return true
+						}
+					}
+				}
+			}
+		}
+		return false
+	}
+	for round := 0; round < 2; round++ {
+		for _, f := range c.Fns {
+			if !inModule(f) || prelim[f] || len(f.Blocks) == 0 || signals(f) || len(naturalLoops(f)) > 0 {
+				continue
+			}
+			for _, cl := range findCalls(f, func(string) bool { return true }) {
+				g := cl.Call.StaticCallee()
+				if g == nil {
+					continue
+				}
+				if strings.HasSuffix(short(g), "dtls.Conn).readAndProcessDatagram") || prelim[g] {
+					prelim[f] = true
+				}
+			}
+		}
+	}
+	seenLoop := map[*ssa.BasicBlock]bool{}
+	var sitesRd []Site
+	for f := range prelim {
+		sitesRd = append(sitesRd, c.CallsToName(short(f))...)
+	}
+	sort.Slice(sitesRd, func(i, j int) bool { return c.ipos(sitesRd[i].Call) < c.ipos(sitesRd[j].Call) })
+	for _, s := range sitesRd {
 		rd, ok := s.Call.(*ssa.Call)
 		if !ok {
 			continue
+		}
+		if prelim[s.Fn] {
+			continue // a wrapper of the reader, not a wait loop
 		}
 		fn := s.Fn
 		var loop *natLoop
@@ -1267,9 +1327,29 @@ func ruleAwaitLoopsRetransmit(c *Ctx, r *Report) {
 				loop = l
 			}
 		}
+		// the wait may sit in a helper that the loop of its caller runs once per turn
+		var viaHelper *ssa.Call
+		helper := (*ssa.Function)(nil)
 		if loop == nil {
+			for _, cs := range c.CallsToName(short(fn)) {
+				cc, isCall := cs.Call.(*ssa.Call)
+				if !isCall {
+					continue
+				}
+				for _, l := range naturalLoops(cs.Fn) {
+					if l.blocks[cc.Block()] && (loop == nil || len(l.blocks) < len(loop.blocks)) {
+						loop, viaHelper, helper = l, cc, fn
+					}
+				}
+			}
+			if viaHelper != nil {
+				fn = viaHelper.Parent()
+			}
+		}
+		if loop == nil || seenLoop[loop.header] {
 			continue
 		}
+		seenLoop[loop.header] = true
 		writes := findCalls(fn, nameHasSuffix("dtls.Conn).writePackets"))
 		sentBefore := false
 		for _, w := range writes {
@@ -1288,6 +1368,9 @@ func ruleAwaitLoopsRetransmit(c *Ctx, r *Report) {
 				resend = true
 			}
 		}
+		if helper != nil && len(findCalls(helper, nameHasSuffix("dtls.Conn).writePackets"))) > 0 {
+			resend = true
+		}
 		r.Check(resend, rule, short(fn)+":resend", c.ipos(rd), "the flight is sent again inside the wait loop", "the function sends a flight and then waits for the answer in a loop that never sends it again: there is no retransmission timer for this flight, a lost datagram (either way) leaves the endpoint silent until its context expires, and a peer that needs a second datagram to make progress never gets one")
 		// bounded read
 		var timeout ssa.Value
@@ -1305,16 +1388,22 @@ func ruleAwaitLoopsRetransmit(c *Ctx, r *Report) {
 		if timeout == nil {
 			continue
 		}
+		if helper != nil {
+			// the interval the helper waits for is the one its caller hands it
+			if p, isP := stripConv(timeout).(*ssa.Parameter); isP && p.Parent() == helper && paramIndex(p) < len(viaHelper.Call.Args) {
+				timeout = viaHelper.Call.Args[paramIndex(p)]
+			}
+		}
 		phi, isPhi := stripConv(timeout).(*ssa.Phi)
 		doubled, capped := false, false
-		if isPhi && phi.Block() == loop.header {
-			for b := range loop.blocks {
+		scan := func(of ssa.Value, blocks []*ssa.BasicBlock) {
+			for _, b := range blocks {
 				for _, in := range b.Instrs {
 					bo, ok := in.(*ssa.BinOp)
 					if !ok {
 						continue
 					}
-					if bo.Op == token.MUL && (stripConv(bo.X) == ssa.Value(phi) || stripConv(bo.Y) == ssa.Value(phi)) {
+					if bo.Op == token.MUL && (stripConv(bo.X) == of || stripConv(bo.Y) == of) {
 						if k, isK := constInt(bo.Y); isK && k == 2 {
 							doubled = true
 						}
@@ -1327,6 +1416,64 @@ func ruleAwaitLoopsRetransmit(c *Ctx, r *Report) {
 					}
 				}
 			}
+		}
+		if isPhi && phi.Block() == loop.header {
+			var lb []*ssa.BasicBlock
+			for b := range loop.blocks {
+				lb = append(lb, b)
+			}
+			scan(phi, lb)
+			// ... or the next interval is computed by a helper of the module that is handed the
+			// current one
+			for i, e := range phi.Edges {
+				if !loop.blocks[phi.Block().Preds[i]] {
+					continue
+				}
+				for _, l := range c.Origins(e, 0) {
+					cl, ok := l.(*ssa.Call)
+					if !ok {
+						continue
+					}
+					callee := cl.Call.StaticCallee()
+					if callee == nil || !inModule(callee) || len(callee.Blocks) == 0 {
+						continue
+					}
+					for j, a := range cl.Call.Args {
+						if stripConv(a) == ssa.Value(phi) && j < len(callee.Params) {
+							scan(callee.Params[j], callee.Blocks)
+						}
+					}
+				}
+			}
+		}
+		// ... and restored: on some way round the loop the interval is the configured initial value
+		// again (new, not retransmitted, data arrived)
+		if isPhi && phi.Block() == loop.header {
+			restored := false
+			for i, e := range phi.Edges {
+				if !loop.blocks[phi.Block().Preds[i]] {
+					continue
+				}
+				seenV := map[ssa.Value]bool{}
+				var look func(v ssa.Value)
+				look = func(v ssa.Value) {
+					v = unspill(stripConv(v))
+					if v == ssa.Value(phi) || seenV[v] {
+						return // the old interval again: not a restore
+					}
+					seenV[v] = true
+					if _, f, _, ok := fieldLoad(v); ok && f == "InitialRetransmitInterval" {
+						restored = true
+					}
+					if p2, ok := v.(*ssa.Phi); ok {
+						for _, e2 := range p2.Edges {
+							look(e2)
+						}
+					}
+				}
+				look(e)
+			}
+			r.Check(restored, rule, short(fn)+":interval-restored", c.ipos(rd), "the interval goes back to the configured initial value inside the wait loop", "the interval of the wait loop only ever grows: new data from the peer that does not finish the wait leaves the endpoint on the backed-off schedule, where the state machines restore the initial interval")
 		}
 		r.Check(doubled && capped, rule, short(fn)+":interval-law", c.ipos(rd), "the wait interval is loop-carried, doubled and capped at 60 s", "the interval of the wait loop is not a loop-carried value that is doubled and capped at 60 s: the flight is not retransmitted on the schedule the state machines use")
 	}
